@@ -47,6 +47,7 @@ func runC19(c *vkit.Collector, rng *vkit.Rng, budget int) {
 	runC19cap(c, rng, budget)
 	runC19capSpecial(c, rng, budget)
 	runC19capNearPi(c, rng, budget)
+	runC19interior(c, rng, budget)
 }
 
 func runC19r1(c *vkit.Collector, rng *vkit.Rng, budget int) {
